@@ -31,7 +31,7 @@ FLOORS = {
                  'multiarg_calls': 6000},
 }
 BUDGET = {'quick': {'random': 10000, 'props': 4000, 'grid_reps': 2, 'ss_fills': 2},
-          'thorough': {'random': 120000, 'props': 60000, 'grid_reps': 20, 'ss_fills': 8}}
+          'thorough': {'random': 900000, 'props': 300000, 'grid_reps': 100, 'ss_fills': 40}}
 TIMEOUT = {'quick': 900, 'thorough': 7200}
 
 THIS = ('msg', {'x': gen.NUM, 'y': gen.NUM, 'p': gen.BOOL, 's': gen.STR, 'xs': ('arr', gen.NUM, -1),
